@@ -132,6 +132,10 @@ def run_rule(chk, facts, spec):
                 chk.expect(not early, f"{key}:before-use", f"{h['key']}: `{var}` is used to build the result before sort/uniqueness check")
     chk.floor("sort-then-check-unique constructor sites (grammar actions + derive)", found, 7)
 
+    header_rule(chk, facts)
+
+
+def header_rule(chk, facts):
     # ---- binary header parser: strict ascending test
     c = facts.crate("candid")
     b = c.body(r"binary_parser::ConsType::to_type$")
